@@ -52,6 +52,8 @@ def gen(args) -> list:
 
     def rdate():
         c = rnd.random()
+        if c < 0.05:
+            return dt.date(1970, 1, 1) + dt.timedelta(days=rnd.choice([-1, 0, 0, 1]))
         if c < 0.15:
             return dt.date.min + dt.timedelta(days=rnd.randint(0, 400))
         if c < 0.3:
@@ -64,6 +66,8 @@ def gen(args) -> list:
 
     def rday_near_std():
         c = rnd.random()
+        if c < 0.06:
+            return rnd.choice([-2, -1, 0, 0, 1, 2])            # the epoch itself: day number 0 and its neighbours
         if c < 0.25:
             return std_lo + rnd.randint(-3, 3)
         if c < 0.5:
@@ -76,7 +80,8 @@ def gen(args) -> list:
         c = rnd.random()
         if c < 0.1:
             cal = rnd.choice(cals)
-            day = rday_near_std()
+            # (half of the days from the calendar's own range: short-range calendars would hardly ever be hit otherwise)
+            day = rday_near_std() if rnd.random() < 0.5 else rnd.randint(max(cal._min_days, std_lo - 2), min(cal._max_days, std_hi + 2))
             if not (cal._min_days <= day <= cal._max_days):
                 continue
             ld = LocalDate._ctor(days_since_epoch=day, calendar=cal)
@@ -113,9 +118,33 @@ def gen(args) -> list:
             except Exception as e:  # noqa: BLE001
                 ev["exc"] = type(e).__name__
             evs.append(ev)
+        elif c < 0.44:
+            # a value given by its fields in its own calendar (not by its day number): last months and last days preferred
+            cal = rnd.choice(cals)
+            y = rnd.choice([rnd.randint(cal.min_year, cal.max_year), rnd.randint(max(cal.min_year, 1), min(cal.max_year, 3000))])
+            try:
+                nm = cal.get_months_in_year(y)
+                m = rnd.choice([1, nm, nm, max(1, nm - 1), rnd.randint(1, nm)])
+                nd = cal.get_days_in_month(y, m)
+                d = rnd.choice([1, nd, rnd.randint(1, nd)])
+                nod = rnd.choice([0, NPD - 1, 999, 1001, rnd.randrange(NPD)])
+                off = rnd.choice([0, 3600, -64800, 64800, rnd.randint(-64800, 64800)])
+                ld = LocalDate(y, m, d, cal)
+            except Exception:  # noqa: BLE001 - not a date of this calendar: C01's business
+                continue
+            ev = {"op": "fields_to_date", "cal": cal.id, "y": y, "m": m, "d": d, "t3": [nod // 10**9, nod % 10**9], "off": off}
+            try:
+                ev["res"] = _dfields(ld.to_date())
+                ldt = ld.at(LocalTime.from_nanoseconds_since_midnight(nod))
+                ev["naive"] = _xfields(ldt.to_naive_datetime())
+                aw = ldt.with_offset(Offset.from_seconds(off)).to_aware_datetime()
+                ev["aware"], ev["aware_off"] = _xfields(aw.replace(tzinfo=None)), int(aw.utcoffset().total_seconds())
+            except Exception as e:  # noqa: BLE001
+                ev["exc"] = type(e).__name__
+            evs.append(ev)
         elif c < 0.5:
             cal = rnd.choice(cals)
-            day = rday_near_std()
+            day = rday_near_std() if rnd.random() < 0.5 else rnd.randint(max(cal._min_days, std_lo - 2), min(cal._max_days, std_hi + 2))
             if not (cal._min_days <= day <= cal._max_days):
                 continue
             nod = rnd.choice([0, NPD - 1, 999, 1001, rnd.randrange(NPD)])
@@ -268,9 +297,9 @@ def run(ctx: Ctx):
         # date round trips: both ends of the range + a random block (the thorough tier enumerates every date)
         # both range ends, the two ends of the 1900-2100 window (where the implementation switches between a table-driven and the
         # general conversion; 1900 and 2100 are the non-leap century years in it), the last non-leap/leap century pair, random blocks
-        d1900, d2100, d2000, d1600 = (dt.date(y, 1, 1).toordinal() for y in (1900, 2100, 2000, 1600))
+        d1900, d2100, d2000, d1600, d1970 = (dt.date(y, 1, 1).toordinal() for y in (1900, 2100, 2000, 1600, 1970))
         blocks = [(1, 1500), (max_ord - 1500, max_ord + 1), (d1900 - 400, d1900 + 1100), (d2100 - 400, d2100 + 1100), (d2000 - 100, d2000 + 500),
-                  (d1600 - 100, d1600 + 500)] + [(b, b + 1500) for b in [rnd.randint(1, max_ord - 1500) for _ in range(10)]]
+                  (d1600 - 100, d1600 + 500), (d1970 - 400, d1970 + 400)] + [(b, b + 1500) for b in [rnd.randint(1, max_ord - 1500) for _ in range(9)]]
     else:
         step = (max_ord + 16) // 16
         blocks = [(1 + k * step, min(1 + (k + 1) * step, max_ord + 1)) for k in range(16)]
